@@ -17,10 +17,17 @@ func zzPeriod() uint64 {
 	if c := zz.Param("period", 0); c != 0 {
 		return uint64(c)
 	}
-	p := zz.U64("period_s")
+	p := uint64(zz.U32("period_s")) // every 32-bit value: 1 s .. 2^32-1 s
 	zz.Assume(p >= 1)
-	zz.Assume(p <= 1<<32-1)
 	return p
+}
+
+// zzGenesis: genesis in [0, 2^32] (2^32 itself is the "genesis_top" variant).
+func zzGenesis() int64 {
+	if zz.Param("genesis_top", 0) == 1 {
+		return 1 << 32
+	}
+	return int64(zz.U32("genesis"))
 }
 
 // ZZ_C16_currentNext: CurrentRound / NextRound against the exact integer schedule
@@ -28,12 +35,13 @@ func zzPeriod() uint64 {
 // which is equivalent to T(r) <= now < T(r+1).
 func ZZ_C16_currentNext() {
 	p := zzPeriod()
-	genesis := zz.I64("genesis")
-	now := zz.I64("now")
-	zz.Assume(genesis >= 0)
-	zz.Assume(genesis <= 1<<32)
-	zz.Assume(now >= genesis)
-	zz.Assume(now-genesis <= 1<<50)
+	genesis := zzGenesis()
+	// now = genesis + elapsed, elapsed in [0, 2^50] (structurally bounded so that the encoder sees the range)
+	elapsed := zz.U64("elapsed") & (1<<50 - 1)
+	if zz.Param("elapsed_top", 0) == 1 {
+		elapsed = 1 << 50
+	}
+	now := genesis + int64(elapsed)
 	period := time.Duration(p) * time.Second
 	d := uint64(now - genesis)
 	q := d / p
@@ -55,10 +63,8 @@ func ZZ_C16_currentNext() {
 // ZZ_C16_timeOfRound: every 64-bit round: exact schedule without wrap, or the documented error value.
 func ZZ_C16_timeOfRound() {
 	p := zzPeriod()
-	genesis := zz.I64("genesis")
+	genesis := zzGenesis()
 	round := zz.U64("round")
-	zz.Assume(genesis >= 0)
-	zz.Assume(genesis <= 1<<32)
 	period := time.Duration(p) * time.Second
 	const errv = int64(TimeOfRoundErrorValue)
 	limit := int64(math.MaxInt64) - (1 << 36)
